@@ -119,3 +119,12 @@ Theorem exact_matches_spec :
   forall ds out v, exact_output ds out -> (In v (map entry_view out) <-> In v (map entry_view (spec_group ds))).
 Proof. exact Verif.Proofs.C12_Spec.exact_matches_spec. Qed.
 Print Assumptions exact_matches_spec.
+
+(* lint(): the files a run counts as checked are the files of the packages it actually analysed (named by the
+   patterns, compiled, not skipped); together with merge_all: a configuration in which a package fails to compile
+   does not veto the 'all' problems the other configurations report in that package's files *)
+Theorem checked_files_are_analysed :
+  forall ps f, In f (checked_of ps) <->
+    exists p, In p ps /\ pk_initial p = true /\ pk_failed p = false /\ pk_skipped p = false /\ In f (pk_files p).
+Proof. exact checked_of_iff. Qed.
+Print Assumptions checked_files_are_analysed.
